@@ -234,7 +234,7 @@ func c04gRun(t *testing.T, contact bool, nWriters int, sameAccount bool, ops []c
 
 func TestVerif_C04_GroupKinds(t *testing.T) {
 	acct := vacct.Get("C04")
-	vacct.RapidCheck(t, vacct.N(20, 1200), func(rt *rapid.T) {
+	vacct.RapidCheck(t, vacct.N(20, 4000), func(rt *rapid.T) {
 		contact := rapid.IntRange(0, 2).Draw(rt, "contact") == 0
 		nW := rapid.IntRange(1, 3).Draw(rt, "writers")
 		same := rapid.Bool().Draw(rt, "sameAccount")
